@@ -74,9 +74,9 @@ def check_case(case: dict):
                     key = conn.session_keys[-1] if conn.session_keys else None
                     data = hostile.build(recipe, key)
                     out["hostile"] = data
-                    conn.send_stream(data, delay=dev.latency, cuts=cuts)
+                    conn.send_stream(data, delay=case.get("delay", dev.latency), cuts=cuts)
                     if case.get("then_close") is not None:
-                        conn.close(delay=dev.latency + case["then_close"], reset=bool(case.get("reset")))
+                        conn.close(delay=case.get("delay", dev.latency) + case["then_close"], reset=bool(case.get("reset")))
                     return
                 orig(conn, p)
             dev._handshake = hs
@@ -299,6 +299,14 @@ def _catalogue():
             d = round(2.0 - j * 0.00025, 6)
             cases.append({"version": 3, "phase": "send", "api": "lan", "hostile": {"t": "v3", "ptype": pt, "inner": {"t": "v2"}, "enc": "ok", "tag": "ok"},
                           "cuts": [], "delay": d, "tick": 0.001})
+        # the same during the handshake: a packet of every type arrives within one loop iteration of the end of the handshake's
+        # read window (coarser loop latencies too)
+        for tick in (0.001, 0.05, 0.2):
+            for j in range(0, 14, 2):
+                d = round(2.0 - j * tick / 4, 6)
+                for api in ("lan", "device"):
+                    r = {"t": "v3", "ptype": pt, "inner": {"t": "raw", "data": bytes(64).hex()}, "enc": "clear", "tag": "none"}
+                    cases.append({"version": 3, "phase": "auth", "api": api, "hostile": r, "cuts": [], "delay": d, "tick": tick})
     # a well-formed unsolicited packet (or a hostile one) is queued on the idle connection, then the peer stays silent
     for version, recs in ((2, v2[:6] + [{"t": "v2"}]), (3, v3[:10] + [{"t": "v3", "ptype": 3, "inner": {"t": "v2"}, "enc": "ok", "tag": "ok"}])):
         for r in recs:
